@@ -183,3 +183,220 @@ where
         if r.aligned { 1 } else { 0 }
     ));
 }
+
+// ---------------------------------------------------------------------------------------------
+// a rooted ZstCache keeps its shared block: `zkeep <holder> <align> <maxalign> <full|inc>`
+// ---------------------------------------------------------------------------------------------
+
+/// The cache as a field of a derived struct next to another pointer.
+#[derive(Collect)]
+#[collect(no_drop)]
+pub struct FieldHolder<'gc, const M: usize> {
+    other: Gc<'gc, u32>,
+    cache: ZstCache<'gc, M>,
+}
+
+/// Ways of holding a cache in the root.
+pub trait Hold<'gc, const M: usize>: Sized {
+    fn hold(mc: &gc_arena::Mutation<'gc>, c: ZstCache<'gc, M>) -> Self;
+    fn cache(&self) -> &ZstCache<'gc, M>;
+    /// allocations the holder itself adds
+    const EXTRA: usize;
+}
+impl<'gc, const M: usize> Hold<'gc, M> for ZstCache<'gc, M> {
+    fn hold(_mc: &gc_arena::Mutation<'gc>, c: ZstCache<'gc, M>) -> Self {
+        c
+    }
+    fn cache(&self) -> &ZstCache<'gc, M> {
+        self
+    }
+    const EXTRA: usize = 0;
+}
+impl<'gc, const M: usize> Hold<'gc, M> for FieldHolder<'gc, M> {
+    fn hold(mc: &gc_arena::Mutation<'gc>, c: ZstCache<'gc, M>) -> Self {
+        FieldHolder { other: Gc::new(mc, 7), cache: c }
+    }
+    fn cache(&self) -> &ZstCache<'gc, M> {
+        &self.cache
+    }
+    const EXTRA: usize = 1;
+}
+impl<'gc, const M: usize> Hold<'gc, M> for Option<ZstCache<'gc, M>> {
+    fn hold(_mc: &gc_arena::Mutation<'gc>, c: ZstCache<'gc, M>) -> Self {
+        Some(c)
+    }
+    fn cache(&self) -> &ZstCache<'gc, M> {
+        self.as_ref().unwrap()
+    }
+    const EXTRA: usize = 0;
+}
+impl<'gc, const M: usize> Hold<'gc, M> for Box<ZstCache<'gc, M>> {
+    fn hold(_mc: &gc_arena::Mutation<'gc>, c: ZstCache<'gc, M>) -> Self {
+        Box::new(c)
+    }
+    fn cache(&self) -> &ZstCache<'gc, M> {
+        self
+    }
+    const EXTRA: usize = 0;
+}
+impl<'gc, const M: usize> Hold<'gc, M> for Vec<ZstCache<'gc, M>> {
+    fn hold(_mc: &gc_arena::Mutation<'gc>, c: ZstCache<'gc, M>) -> Self {
+        vec![c]
+    }
+    fn cache(&self) -> &ZstCache<'gc, M> {
+        &self[0]
+    }
+    const EXTRA: usize = 0;
+}
+impl<'gc, const M: usize> Hold<'gc, M> for (u8, ZstCache<'gc, M>) {
+    fn hold(_mc: &gc_arena::Mutation<'gc>, c: ZstCache<'gc, M>) -> Self {
+        (1, c)
+    }
+    fn cache(&self) -> &ZstCache<'gc, M> {
+        &self.1
+    }
+    const EXTRA: usize = 0;
+}
+
+pub const HOLDERS: [&str; 6] = ["root", "field", "option", "box", "vec", "tuple"];
+
+struct Rec1 {
+    shared: bool,
+    addr: usize,
+}
+
+macro_rules! zkeep_body {
+    ($root:ty, $m:literal, $z:ty, $inc:expr, $out:expr) => {{
+        use crate::track;
+        let out: &mut CaseOut = $out;
+        reset_drops();
+        track::reset();
+        let mut watch = None;
+        let mut arena = Arena::<Rootable![$root]>::new(|mc| {
+            let (c, recs) = track::recording(|| ZstCache::<$m>::new(mc));
+            let a0 = Gc::as_ptr(c.cached_ptr()) as usize;
+            for r in recs {
+                if r.base < a0 && a0 <= r.base + r.size {
+                    watch = track::watch(r);
+                }
+            }
+            <$root as Hold<'_, $m>>::hold(mc, c)
+        });
+        if watch.is_none() {
+            out.mon("the cache's pointer lies in no block allocated by ZstCache::new".to_string());
+        }
+        let extra = <$root as Hold<'_, $m>>::EXTRA;
+        let r1 = arena.mutate(|mc, root| {
+            let cache = <$root as Hold<'_, $m>>::cache(root);
+            let p = cache.alloc(mc, <$z as ZLike>::make());
+            Rec1 { shared: cache.is_cached(p), addr: Gc::as_ptr(p) as usize }
+        });
+        if $inc {
+            // many small increments with allocation noise, then make sure two cycles have run
+            for i in 0..60 {
+                if i % 3 == 0 {
+                    arena.mutate(|mc, _| {
+                        let _ = Gc::new(mc, i as u64);
+                    });
+                }
+                let m = arena.metrics();
+                m.adjust_debt(1.5 - m.allocation_debt());
+                if i % 4 == 1 {
+                    let _ = arena.mark_debt();
+                } else {
+                    arena.collect_debt();
+                }
+            }
+        }
+        arena.finish_cycle();
+        arena.finish_cycle();
+        let w = watch.map(track::watched).unwrap_or_default();
+        let kept = w.frees == 0;
+        if !kept {
+            out.mon(format!("the cache's shared block was released {} time(s) while the cache is held in the root ({})", w.frees, stringify!($root)));
+        }
+        let count_mid = arena.metrics().total_gc_count();
+        if count_mid != 1 + extra {
+            out.mon(format!("{} allocation(s) alive after two cycles with only the cache rooted, expected {}", count_mid, 1 + extra));
+        }
+        // allocate again: the same shared pointer (do not touch it if the block is gone)
+        let (same, count) = if kept {
+            let r2 = arena.mutate(|mc, root| {
+                let cache = <$root as Hold<'_, $m>>::cache(root);
+                let p = cache.alloc(mc, <$z as ZLike>::make());
+                let q = cache.alloc_static(mc, <$z as ZLike>::make());
+                if !p.ok() || !q.ok() {
+                    out.mon("deref of the pointer allocated after the collections does not read the value".to_string());
+                }
+                if cache.is_cached(p) != r1.shared || cache.is_cached(q) != r1.shared {
+                    out.mon("is_cached answers differently after the collections".to_string());
+                }
+                if r1.shared && !Gc::ptr_eq(Gc::erase(p), cache.cached_ptr()) {
+                    out.mon("the shared pointer allocated after the collections is not ptr_eq to the cache's pointer".to_string());
+                }
+                Rec1 { shared: cache.is_cached(p), addr: Gc::as_ptr(p) as usize }
+            });
+            (r2.addr == r1.addr, arena.metrics().total_gc_count() - extra)
+        } else {
+            (false, arena.metrics().total_gc_count() - extra.min(arena.metrics().total_gc_count()))
+        };
+        if kept {
+            arena.finish_cycle();
+            arena.finish_cycle();
+            let w = watch.map(track::watched).unwrap_or_default();
+            if w.frees != 0 {
+                out.mon("the cache's shared block was released by a later cycle while the cache is rooted".to_string());
+            }
+            drop(arena);
+            let w = watch.map(track::watched).unwrap_or_default();
+            if w.frees != 1 || w.bad_layout != 0 {
+                out.mon(format!("after dropping the arena the cache's block was released {} time(s) (layout mismatches {})", w.frees, w.bad_layout));
+            }
+        } else {
+            // the root holds a dangling pointer: do not run the collector over it again
+            std::mem::forget(arena);
+        }
+        out.answer = Some(format!(
+            "ok shared={} kept={} same={} count={}",
+            r1.shared as u8,
+            kept as u8,
+            if r1.shared { (same as u8).to_string() } else { "-".to_string() },
+            count
+        ));
+    }};
+}
+
+macro_rules! zkeep_holders {
+    ($holder:expr, $m:literal, $z:ty, $inc:expr, $out:expr) => {
+        match $holder {
+            "root" => zkeep_body!(ZstCache<'_, $m>, $m, $z, $inc, $out),
+            "field" => zkeep_body!(FieldHolder<'_, $m>, $m, $z, $inc, $out),
+            "option" => zkeep_body!(Option<ZstCache<'_, $m>>, $m, $z, $inc, $out),
+            "box" => zkeep_body!(Box<ZstCache<'_, $m>>, $m, $z, $inc, $out),
+            "vec" => zkeep_body!(Vec<ZstCache<'_, $m>>, $m, $z, $inc, $out),
+            "tuple" => zkeep_body!((u8, ZstCache<'_, $m>), $m, $z, $inc, $out),
+            _ => return false,
+        }
+    };
+}
+
+fn zkeep_z<Z: ZLike>(holder: &str, m: usize, inc: bool, out: &mut CaseOut) -> bool {
+    match m {
+        8 => zkeep_holders!(holder, 8, Z, inc, out),
+        64 => zkeep_holders!(holder, 64, Z, inc, out),
+        _ => return false,
+    }
+    true
+}
+
+/// `zkeep <holder> <align> <maxalign> <full|inc>`; false when the combination is not instantiated.
+pub fn zkeep_case(holder: &str, align: usize, m: usize, inc: bool, out: &mut CaseOut) -> bool {
+    match align {
+        1 => zkeep_z::<G1>(holder, m, inc, out),
+        4 => zkeep_z::<G4>(holder, m, inc, out),
+        8 => zkeep_z::<G8>(holder, m, inc, out),
+        16 => zkeep_z::<G16>(holder, m, inc, out),
+        64 => zkeep_z::<G64>(holder, m, inc, out),
+        _ => false,
+    }
+}
